@@ -7,7 +7,6 @@ import (
 	"github.com/prometheus/prometheus/storage"
 	"github.com/prometheus/prometheus/tsdb/chunkenc"
 
-	engstore "github.com/thanos-community/promql-engine/execution/storage"
 	"github.com/thanos-community/promql-engine/zzverif/sym"
 )
 
@@ -28,28 +27,6 @@ func (s *Series) Iterator() chunkenc.Iterator {
 	it.FailAt, it.FailErr = s.FailAt, s.FailErr
 	s.Iters = append(s.Iters, it)
 	return it
-}
-
-// Selector is a stub engstore.SeriesSelector returning a fixed list of series.
-type Selector struct {
-	Ser   []*Series
-	Err   error
-	Calls int
-}
-
-func (s *Selector) Matchers() []*labels.Matcher { return nil }
-func (s *Selector) GetSeries(ctx context.Context, shard, numShards int) ([]engstore.SignedSeries, error) {
-	s.Calls++
-	if s.Err != nil {
-		return nil, s.Err
-	}
-	start := shard * len(s.Ser) / numShards
-	end := (shard + 1) * len(s.Ser) / numShards
-	var out []engstore.SignedSeries
-	for i := start; i < end; i++ {
-		out = append(out, engstore.SignedSeries{Series: s.Ser[i], Signature: uint64(i - start)})
-	}
-	return out, nil
 }
 
 // ---- Queryable with fault injection and bookkeeping
